@@ -8,6 +8,7 @@ are images with intrinsic dimensions.
 """
 
 import re
+from copy import deepcopy
 from importlib.resources import files
 
 from . import CSS, Attachment, css
@@ -209,7 +210,8 @@ def handle_svg(element, box, get_image_from_uri, base_url):
     url_fetcher = get_image_from_uri.keywords['url_fetcher']
     context = get_image_from_uri.keywords['context']
     try:
-        image = SVGImage(element, base_url, url_fetcher, context)
+        # Drawing SVG images changes their tree, keep the HTML tree unchanged
+        image = SVGImage(deepcopy(element), base_url, url_fetcher, context)
     except Exception as exception:  # pragma: no cover
         LOGGER.error('Failed to load inline SVG: %s', exception)
         LOGGER.debug('Error while loading inline SVG:', exc_info=exception)
